@@ -10,28 +10,28 @@ Theorem C01_check : forall b c, pbb_wf (bbs b) = true -> is_in_check b c = in_ch
 Proof. exact in_check_spec. Qed.
 
 (* the generated pseudo-legal moves are exactly the rules' pseudo-legal moves *)
-Theorem C01_pseudo : forall b, wf_full b = true ->
+Theorem C01_pseudo : forall b, wf_rules b = true ->
   forall mv, In mv (map move_of (get_all_moves b)) <-> In mv (pseudo_moves (abs b)).
 Proof. exact pseudo_spec. Qed.
 
 (* every generated move satisfies the preconditions of make/unmake and carries the right flags *)
-Theorem C01_moves_ok : forall b m, wf_full b = true -> In m (get_all_moves b) ->
+Theorem C01_moves_ok : forall b m, wf_rules b = true -> In m (get_all_moves b) ->
   move_okb b m = true /\ flags_ok b m = true.
 Proof. exact generated_moves_ok. Qed.
 
 (* the moves offered are exactly the legal moves (castling, en passant, the four promotions, pins,
    check evasions included), for every well-formed position and both colours *)
-Theorem C01_legal : forall b, wf_full b = true ->
+Theorem C01_legal : forall b, wf_rules b = true ->
   (Board.fullmove b < 65535)%N -> (halfmove_clock b < 65535)%N ->
   forall mv, In mv (map move_of (get_legal_moves b)) <-> In mv (legal_moves (abs b)).
 Proof. exact legal_spec. Qed.
 
 (* without duplicates *)
-Theorem C01_nodup : forall b, wf_full b = true -> NoDup (map move_of (get_legal_moves b)).
+Theorem C01_nodup : forall b, wf_rules b = true -> NoDup (map move_of (get_legal_moves b)).
 Proof. exact legal_nodup. Qed.
 
 (* consequently mate and stalemate are recognised exactly *)
-Theorem C01_mate_stalemate : forall b, wf_full b = true ->
+Theorem C01_mate_stalemate : forall b, wf_rules b = true ->
   (Board.fullmove b < 65535)%N -> (halfmove_clock b < 65535)%N ->
   (get_legal_moves b = [] /\ is_in_check b (current_turn b) = true <-> checkmate (abs b) = true)
   /\ (get_legal_moves b = [] /\ is_in_check b (current_turn b) = false <-> stalemate (abs b) = true).
